@@ -1075,7 +1075,30 @@ func ruleC12(r *Run, p *Program, rule string) {
 				}
 			})
 		}
-		if r.anchor(rule+".all-segments", "capture loop building the list of segments to copy (in Backup or a helper)", work != nil) {
+		// the list may also be the result of segmentsBySequenceID() itself (a fresh slice): then the loops range over it directly
+		direct := false
+		if work == nil {
+			for _, g := range deepFuncs(p, f) {
+				if funcKey(g) == "(*pogreb.datalog).segmentsBySequenceID" {
+					continue
+				}
+				instrsOf(g, func(in ssa.Instruction) {
+					ia, ok := in.(*ssa.IndexAddr)
+					if !ok || !inCycle(ia.Block()) {
+						return
+					}
+					for _, s := range sources(ia.X) {
+						if c, ok := s.(*ssa.Call); ok && calleeKey(&c.Call) == "(*pogreb.datalog).segmentsBySequenceID" {
+							direct = true
+						}
+					}
+				})
+			}
+		}
+		if direct {
+			r.ok(rule+".all-segments", funcKey(f)+":source", p.Pos(f.Pos()), "the loops range directly over the slice segmentsBySequenceID() returned (every non-nil entry of the table)", true)
+			r.ok(rule+".all-segments", funcKey(f)+":no-skip", p.Pos(f.Pos()), "no intermediate list is built: nothing can be left out of it", true)
+		} else if r.anchor(rule+".all-segments", "capture loop building the list of segments to copy (in Backup or a helper)", work != nil) {
 			r.check(fromOrder, rule+".all-segments", funcKey(f)+":source", p.Pos(work.Pos()), "the segments to copy are taken from segmentsBySequenceID() (every non-nil entry of the table)", "Backup does not enumerate the segments through segmentsBySequenceID(): after compaction freed a lower id the table has holes and a hand-written scan can miss the segments behind them")
 			checkSkipsOnly(r, p, rule+".all-segments", funcKey(f)+":no-skip", work.Parent(), work, func(c *Cond) bool { return false },
 				"every enumerated segment is added to the list of segments to copy", "Backup's capture loop can skip or stop before a segment: the backup misses part of the log")
